@@ -527,13 +527,17 @@ def vf_abs(x):
     return x.__abs__() if isinstance(x, SymInt) else _b.abs(x)
 
 
-def _minmax(args, key, want_max):
+def _minmax(args, key, want_max, kw):
     if len(args) == 1:
-        args = list(args[0])
-    if key is not None or not any(isinstance(a, SymInt) for a in args):
-        return None
-    best = args[0]
-    for a in args[1:]:
+        args = (list(args[0]),)          # materialise generators exactly once
+        items = args[0]
+    else:
+        items = list(args)
+    if key is not None or not any(isinstance(a, SymInt) for a in items):
+        f = _b.max if want_max else _b.min
+        return f(*args, key=key, **kw) if key is not None else f(*args, **kw)
+    best = items[0]
+    for a in items[1:]:
         za, zb = _bv(a), _bv(best)
         cond = (za > zb) if want_max else (za < zb)
         best = SymInt(z3.If(cond, za, zb))
@@ -541,13 +545,11 @@ def _minmax(args, key, want_max):
 
 
 def vf_min(*args, key=None, **kw):
-    r = _minmax(args, key, False)
-    return r if r is not None else (_b.min(*args, key=key, **kw) if key else _b.min(*args, **kw))
+    return _minmax(args, key, False, kw)
 
 
 def vf_max(*args, key=None, **kw):
-    r = _minmax(args, key, True)
-    return r if r is not None else (_b.max(*args, key=key, **kw) if key else _b.max(*args, **kw))
+    return _minmax(args, key, True, kw)
 
 
 def vf_range(*args):
